@@ -1,10 +1,12 @@
 """C14 — clock domains stay in ratio; the internal clock holds tempo under delay.
-Theorems: coq/Props/C14.v over the models coq/Clock/{Multiplier,ClockRun,MidiIn,MidiInTimed}.v.
+Theorems: coq/Props/C14.v over the models coq/Clock/{Multiplier,ClockRun,MidiIn,MidiInTimed,MidiInWired}.v.
 Correspondence (every run): make_clock_multiplier on ALL ordered rate pairs up to 1920 with one dividing the other
 (+ sampled non-dividing pairs, None/0 rates), Timeline.tick() with 1-3 recording devices (and a MidiOutputDevice on a
 fake port), Clock.run against a scripted virtual clock (jitter, stalls, tempo changes from the callback and between
 wake-ups, exact-boundary dyadic scripts), MidiInputDevice._callback on message sequences under a virtual wall clock
-(gaps from microseconds to hours, time standing still / going backwards), each compared inside Coq
+(gaps from microseconds to hours, time standing still / going backwards), the MidiInputDevice wired to a real Timeline
+(stop/start/songpos messages and user-level timeline.stop()/start()/reset() travelling Timeline -> clock_source and back,
+followed by further clock messages), each compared inside Coq
 (vm_compute) with the model.  Oracle: closed forms in exact arithmetic (fractions.Fraction) from the property text."""
 from common import *
 import math
@@ -13,7 +15,7 @@ PROP = "C14"
 MAXRATE = 1920
 META = {
  "engine": "S-scheduler",
- "text": "Coq theorems (Props/C14.v, closed under the global context) prove, for ALL positive rates below 10^8 and all run lengths: after n timeline ticks a device has received exactly ceil(n*out/in) ticks (out | in: one tick on timeline tick 0 and then on every (in/out)-th, so every window of in/out ticks holds exactly one; in | out: exactly out/in per tick; any window of `in` timeline ticks = one beat holds exactly `out` device ticks, hence 24 MIDI clocks per beat), the code's round(pos, 8) > 1 test agrees with the exact comparison, a pair is refused on the first next() exactly when neither rate divides the other and never otherwise, a device without a rate gets one tick per tick; for the internal clock, for ANY non-decreasing sequence of clock readings (arbitrary lateness, stalls) the total number of ticks delivered after each wake-up is floor((t - t0)/delta) (none dropped or doubled), after a tempo change the ticks follow the new duration exactly from the next tick, and an external MIDI clock produces exactly one tick per clock message (start/stop/songpos 0 -> start/stop/reset, nothing else ticks) whatever the wall-clock readings the callback takes for its tempo estimate (any integers: equal, decreasing, microseconds or hours apart); on a steady clock the estimate is exactly 2.5/interval bpm. The models are tied to the repository on every run: make_clock_multiplier on every ordered dividing pair up to 1920 (exhaustive) and sampled non-dividing pairs, Timeline.tick with 1-3 devices incl. a MidiOutputDevice on a fake port, Clock.run on a scripted virtual clock, MidiInputDevice._callback with the time module it sees replaced by a scripted clock (13 time profiles); all compared inside Coq (vm_compute) and judged by an independent exact-arithmetic oracle that supplies the failing input.",
+ "text": "Coq theorems (Props/C14.v, closed under the global context) prove, for ALL positive rates below 10^8 and all run lengths: after n timeline ticks a device has received exactly ceil(n*out/in) ticks (out | in: one tick on timeline tick 0 and then on every (in/out)-th, so every window of in/out ticks holds exactly one; in | out: exactly out/in per tick; any window of `in` timeline ticks = one beat holds exactly `out` device ticks, hence 24 MIDI clocks per beat), the code's round(pos, 8) > 1 test agrees with the exact comparison, a pair is refused on the first next() exactly when neither rate divides the other and never otherwise, a device without a rate gets one tick per tick; for the internal clock, for ANY non-decreasing sequence of clock readings (arbitrary lateness, stalls) the total number of ticks delivered after each wake-up is floor((t - t0)/delta) (none dropped or doubled), after a tempo change the ticks follow the new duration exactly from the next tick, and an external MIDI clock produces exactly one tick per clock message (start/stop/songpos 0 -> start/stop/reset, nothing else ticks) whatever the wall-clock readings the callback takes for its tempo estimate (any integers: equal, decreasing, microseconds or hours apart); on a steady clock the estimate is exactly 2.5/interval bpm. The models are tied to the repository on every run: make_clock_multiplier on every ordered dividing pair up to 1920 (exhaustive) and sampled non-dividing pairs, Timeline.tick with 1-3 devices incl. a MidiOutputDevice on a fake port, Clock.run on a scripted virtual clock, MidiInputDevice._callback with the time module it sees replaced by a scripted clock (13 time profiles); all compared inside Coq (vm_compute) and judged by an independent exact-arithmetic oracle that supplies the failing input. With the device wired to a real Timeline (Clock/MidiInWired.v: the callback composed with the Timeline's reactions, which call back into the device — Timeline.stop() -> clock_source.stop(), Timeline.start() -> clock_source.run()) the number of Timeline.tick() calls equals the number of clock messages after every event of ANY history of messages and user-level timeline.stop()/start()/reset() calls, and the k-th clock message carries the device ticks of the k-th tick of an uninterrupted timeline (C14_midi_wired_*); checked on every run against a real Timeline clocked by a MidiInputDevice on a fake port, with stop/start/songpos messages and user-level calls followed by further clock messages.",
  "note": "Partial in the DESIGN sense: threads, time.sleep and the OS scheduler are outside the model (the theorem covers every sequence of readings, not the mechanism producing them); float rounding of `pos`/`clock0` accumulation is validated by the correspondence runs (readings kept >= 2e-6 s from deadlines except in the exactly-representable dyadic stratum), not proved; warpers and jitter>0 are not modelled; the tempo estimate of MidiInputDevice is modelled exactly and compared with relative tolerance 1e-9 on strictly increasing readings only. Trusted: Coq kernel + VM; the Python harness; Python int //, % = Z.div/Z.modulo.",
 }
 HEADER = """From Isobar Require Import Base.Prelude Clock.Multiplier Clock.ClockRun Clock.MidiIn.
@@ -1138,13 +1140,263 @@ def check_midi(run):
             "case": c, "coq_term": terms[i][:2000]}, found_input=False)
 
 
+# ================================================================================================
+# 5. MidiInputDevice wired to a REAL Timeline (clock_target = the timeline, clock_source = the device)
+# ================================================================================================
+# The dimension: start / stop / songpos messages travel _callback -> Timeline.start/stop/reset -> and BACK into the
+# device (clock_source.run()/stop()); user-level timeline.stop()/start()/reset() between two messages; further clock
+# messages afterwards.  Model: Clock/MidiInWired.v; theorems C14_midi_wired_*.
+HEADER_WIRED = """From Coq Require Import QArith.
+From Isobar Require Import Base.Prelude Clock.Multiplier Clock.MidiIn Clock.MidiInTimed Clock.MidiInWired.
+Local Open Scope Z_scope.
+"""
+SITE_WIRED = "MidiInputDevice<->Timeline"
+USER_EVENTS = ("user_stop", "user_start", "user_reset")
+EV_CODE = {"clock": 0, "start": 1, "stop": 2, "songpos": 3, "user_stop": 6, "user_start": 7, "user_reset": 8}
+
+
+def ev_code(m, idx):
+    k = m[0]
+    if k in EV_CODE:
+        return EV_CODE[k], (m[1] if k == "songpos" else 0)
+    return (4 if k in NOTELIKE else 5), idx
+
+
+def gen_wired_events(rng, n):
+    """message sequences with transport messages and user-level timeline calls in between, clock messages after each"""
+    u = rng.random()
+    if u < 0.55:
+        msgs = gen_transport(rng, n)
+    elif u < 0.85:
+        msgs = gen_msgs(rng, n)
+    else:                                   # dense: short clock runs separated by one transport event each
+        msgs = []
+        while len(msgs) < n:
+            msgs += [["clock"]] * rng.randint(1, 4)
+            msgs.append(rng.choice([["stop"], ["start"], ["songpos", 0], ["songpos", 7], ["continue"], ["stop"], ["user_stop"],
+                                    ["user_start"], ["user_reset"], ["note_on", rng.randint(0, 127)]]))
+        msgs = msgs[:n]
+    out = []
+    p_user = rng.choice([0.0, 0.03, 0.08, 0.15])
+    for m in msgs:
+        if rng.random() < p_user:
+            out.append([rng.choice(["user_stop", "user_stop", "user_start", "user_reset"])])
+        out.append(m)
+    out += [["clock"]] * rng.randint(1, 6)          # whatever came last is followed by clock messages
+    return out
+
+
+def wired_strata(evs):
+    """which orders of events the history holds (each needs a clock message AFTER the transport event)"""
+    seen, state = set(), "fresh"
+    for m in evs:
+        k = m[0]
+        if k == "clock":
+            if state != "fresh":
+                seen.add("clock after " + state)
+            continue
+        if k in ("stop", "user_stop"):
+            if state.endswith("stop"):
+                seen.add("stop twice")
+            state = "stop message" if k == "stop" else "user-level stop"
+        elif k in ("start", "user_start"):
+            seen.add("start after stop" if "stop" in state else "start without a stop before")
+            state = "start message" if k == "start" else "user-level start"
+        elif (k == "songpos" and m[1] == 0) or k == "user_reset":
+            if "stop" in state:
+                state = "stop, then rewind"
+            elif state == "fresh":
+                state = "rewind"
+        elif k == "continue" and "stop" in state:
+            state = "stop, then continue"
+    return seen
+
+
+WIRED_SNIPPET = """import time as _t, mido, isobar as iso, isobar.io.midi.input as mi
+mido.open_input = lambda *a, **k: type("FakePort", (), {"name": "fake"})()
+now = [0.0]
+def read():
+    now[0] += %r / 2**20; return now[0] - %r / 2**20
+class VirtualTime: time = monotonic = perf_counter = staticmethod(read); sleep = staticmethod(_t.sleep)
+mi.time = VirtualTime
+class Dev(iso.OutputDevice):
+    def __init__(self, rate): super().__init__(); self.rate, self.ticks = rate, 0
+    ticks_per_beat = property(lambda self: self.rate)
+    def tick(self): self.ticks += 1
+    def all_notes_off(self): pass
+class CountingTimeline(iso.Timeline):
+    n_ticks = 0
+    def tick(self): self.n_ticks += 1; super().tick()
+devs = [Dev(r) for r in %r]
+midi_in = iso.MidiInputDevice()
+tl = CountingTimeline(output_device=devs[0], clock_source=midi_in)
+for d in devs[1:]: tl.add_output_device(d)
+sent = 0
+for kind, arg, t in %s:
+    now[0] = t / 2**20; sent += kind == "clock"
+    if kind == "user_stop": tl.stop()
+    elif kind == "user_start": tl.start()
+    elif kind == "user_reset": tl.reset()
+    else: midi_in._callback(mido.Message(kind, pos=arg) if kind == "songpos" else mido.Message(kind))
+    print(kind, "->", tl.n_ticks, "Timeline.tick() calls for", sent, "clock messages; position", round(tl.current_time * 24), "ticks")"""
+
+
+def wired_snippet(c):
+    simple = ("clock",) + TRANSPORT + USER_EVENTS
+    if all(m[0] in simple for m in c["evs"]) and len(c["evs"]) <= 80:
+        seq = [[m[0], m[1] if len(m) > 1 else 0, t] for m, t in zip(c["evs"], c["times"])]
+        return WIRED_SNIPPET % (c.get("intra", 0), c.get("intra", 0), [dev_rate(d) for d in c["devs"]], json.dumps(seq))
+    return "see harness/impl/c14_impl.py run_midi_wired (instants in units of 2^-20 s); case: %s" % json.dumps(c)[:1500]
+
+
+def judge_wired(run, c, r):
+    """independent oracle from the property text: exactly one Timeline.tick() per 'clock' message (cumulative count after
+    EVERY event; the position advances by exactly one tick on every clock message — where a transport event leaves it is
+    compared with the model only), the device ticks of the k-th clock message = those of the k-th tick of a 24-PPQN
+    timeline, no device tick on any other event, a refused rate raises on the first clock message.
+    Returns (index, text) of the first offence or None."""
+    nclk_total = sum(1 for m in c["evs"] if m[0] == "clock")
+    per, code = expected_timeline(24, c["devs"], nclk_total)
+    pos, nclk = 0, 0
+    for j, m in enumerate(c["evs"]):
+        if j >= len(r["obs"]):
+            return j, "event %d %r: the run ended early (code %r)" % (j, m, r["code"])
+        calls, p, nt = r["obs"][j]
+        if m[0] != "clock":
+            pos = p         # where a transport event leaves the position is the model's business (correspondence), not the property's
+        dticks = [x for x in calls if isinstance(x, int) and x < 10]
+        run.cov["oracle_evaluations"] += 1
+        if m[0] == "clock":
+            if code and nclk == len(per) - 1:
+                if r["code"] != -1 or len(r["obs"]) != j + 1:
+                    return j, "event %d %r: a device rate that neither divides nor is a multiple of 24 must raise a ClockException here; got code %r" % (j, m, r["code"])
+                return None
+            pos += 1
+            w = per[nclk]
+            nclk += 1
+        else:
+            w = []
+        if nt != nclk or p != pos or dticks != w:
+            before = [x[0] for x in c["evs"][:j] if x[0] != "clock" and x[0] in ("start", "stop", "songpos", "continue") + USER_EVENTS]
+            return j, ("event %d %r: %d Timeline.tick() calls so far for %d clock messages, position %d ticks (expected %d), device ticks %r "
+                       "(expected %r); transport events before it: %r" % (j, m, nt, nclk, p, pos, dticks, w, before[-6:]))
+    if r["code"] != 0:
+        return len(r["obs"]) - 1, "the run ended with code %r although every device rate is accepted" % (r["code"],)
+    return None
+
+
+def shrink_wired(run, c, j):
+    """smaller histories that still fail: the clock / transport / user events up to the offence, then that with the
+    clock runs before the last transport event shortened"""
+    cut = dict(c, evs=c["evs"][:j + 1], times=c["times"][:j + 1])
+    keep = [i for i in range(j + 1) if c["evs"][i][0] in ("clock",) + TRANSPORT + USER_EVENTS]
+    cands = [keep]
+    tr = [i for i in keep if c["evs"][i][0] != "clock"]
+    if tr:
+        for back in (1, 2, 3):
+            first = tr[-back] if len(tr) >= back else tr[0]
+            cands.append([i for i in keep if i >= first - 1])
+    best = (cut, None)
+    for k in cands:
+        if not k or len(k) >= len(best[0]["evs"]):
+            continue
+        small = dict(c, evs=[c["evs"][i] for i in k], times=[c["times"][i] for i in k])
+        try:
+            rr = run.impl("c14_impl", {"midi_wired": [small]})["midi_wired"][0]
+        except Exception:
+            continue
+        if "error" in rr or rr.get("exc"):
+            continue
+        b = judge_wired(run, small, rr)
+        if b:
+            best = (small, b[1])
+    return best
+
+
+def check_midi_wired(run):
+    rng = run.rng
+    per = 5 if run.tier == "quick" else 40
+    cases = []
+    profiles = ["back-to-back", "steady", "jitter", "pauses", "slow", "still", "backwards", "wild", "intra", "fast"]
+    fixed_evs = [["clock"]] * 3 + [["stop"]] + [["clock"]] * 3 + [["songpos", 0]] + [["clock"]] * 2 + [["start"]] + [["clock"]] * 2 \
+        + [["user_stop"]] + [["clock"]] * 2 + [["user_start"]] + [["clock"]] + [["user_reset"]] + [["clock"]]
+    cases.append({"devs": [24, "midi", None], "evs": fixed_evs, "times": [1000 * UNIT + 21845 * i for i in range(len(fixed_evs))],
+                  "intra": 0, "profile": "steady"})
+    for i in range(per * len(profiles)):
+        profile = profiles[i % len(profiles)]
+        nd = rng.choice((1, 2, 3))
+        devs = []
+        for _ in range(nd):
+            u = rng.random()
+            devs.append(rng.choice([1, 2, 3, 4, 6, 8, 12, 24]) if u < 0.4 else 24 * rng.randint(1, 20) if u < 0.6 else
+                        "midi" if u < 0.78 else None if u < 0.93 else rng.choice([5, 7, 9, 10, 16, 36, 100]))
+        evs = gen_wired_events(rng, rng.randint(6, 90))
+        times, intra = gen_times(rng, evs, profile)
+        cases.append({"devs": devs, "evs": evs, "times": times, "intra": intra, "profile": profile})
+    res = run_sharded(run, "midi_wired", cases, lambda c: len(c["evs"]) * (1 + 8 * sum(1 for d in c["devs"] if d == "midi")))
+    terms, meta = [], []
+    for c, r in zip(cases, res):
+        run.count(len(c["evs"]))
+        run.nontrivial("midi_wired %r" % (c,))
+        run.dist("midi_wired.devices=%d" % len(c["devs"]))
+        for st in sorted(wired_strata(c["evs"])):
+            run.dist("midi_wired.%s" % st)
+        if "error" in r:
+            run.violation({"kind": "midi-in-raises", "site": SITE_WIRED}, {"case": c, "observed": r["error"], "python": wired_snippet(c)})
+            continue
+        refused = any(truthy(dev_rate(s)) and not divides_either(dev_rate(s), 24) for s in c["devs"])
+        run.dist("midi_wired.%s" % ("refused" if refused else "ok"))
+        view = {"msgs": c["evs"], "times": c["times"], "intra": c["intra"]}
+        if r.get("exc"):
+            j, name = r["exc"][0]
+            run.violation({"kind": "midi-in-raises", "site": SITE_WIRED, "error": name, "when": raise_when(view, j)}, {
+                "case": dict(c, evs=c["evs"][:j + 1], times=c["times"][:j + 1]),
+                "observed": "event %d %r raised %s" % (j, c["evs"][j], name), "python": wired_snippet(dict(c, evs=c["evs"][:j + 1], times=c["times"][:j + 1]))})
+            continue
+        bad = judge_wired(run, c, r)
+        if bad:
+            j, text = bad
+            sig = {"kind": "midi-clock-wired-timeline", "site": SITE_WIRED}
+            if any(v["sig"] == json.dumps(sig, sort_keys=True) for v in run.violations):
+                run.violation(sig, {})
+                continue
+            small, t2 = shrink_wired(run, c, j)
+            run.violation(sig, {
+                "case": small, "profile": c["profile"], "observed": t2 or text,
+                "expected": "an external MIDI clock advances the timeline by exactly one tick per clock message, for all sequences of "
+                            "clock/start/stop/song-position messages (and user-level timeline.stop()/start()/reset() between them)",
+                "python": wired_snippet(small)})
+            continue
+        if r.get("problems"):
+            run.violation({"kind": "wired-thread", "site": SITE_WIRED}, {
+                "case": c, "observed": "the thread spawned by Timeline.start(): %r" % (r["problems"][:3],), "python": wired_snippet(c)})
+            continue
+        ks, args = zip(*[ev_code(m, i) for i, m in enumerate(c["evs"])])
+        t0 = min(c["times"])
+        obs = "[" + "; ".join("(%s, (%s, %s))" % (zlist([x if isinstance(x, int) else 99 for x in o[0]]), zlit(o[1]), zlit(o[2]))
+                              for o in r["obs"]) + "]"
+        terms.append("wired_ok %d %s %s %s %s %s %s %s" % (
+            UNIT, lst([rlit(dev_rate(s)) for s in c["devs"]]), zlit(c["intra"]), zlist(list(ks)), zlist(list(args)),
+            zlist([t - t0 for t in c["times"]]), obs, zlit(r["code"])))
+        meta.append(c)
+    run.sample({"midi_wired_events": cases[0]["evs"][:12], "obs": res[0].get("obs", [])[:12]})
+    failing = run.coq_failing(HEADER_WIRED, terms, chunk=10, jobs=8)
+    run.cov["traces_validated_against_impl"] += len(terms) - len(failing)
+    for i in failing:
+        run.violation({"kind": "correspondence", "site": SITE_WIRED}, {
+            "broken": "correspondence model/implementation on a MidiInputDevice wired to a Timeline (calls made by the Timeline per event incl. "
+                      "clock_source.stop()/run(), position, Timeline.tick() count; Clock/MidiInWired.v, C14_midi_wired_* no longer speak about this code)",
+            "case": meta[i], "coq_term": terms[i][:2000]}, found_input=False)
+
+
 def check(run):
-    for name, f in (("multiplier", check_multiplier), ("timeline", check_timeline), ("clock", check_clock), ("midi", check_midi)):
+    for name, f in (("multiplier", check_multiplier), ("timeline", check_timeline), ("clock", check_clock), ("midi", check_midi),
+                    ("midi_wired", check_midi_wired)):
         t0 = time.time()
         f(run)
         run.cov["seconds_" + name] = round(time.time() - t0, 1)
     run.cov["rule"] = ("one case = one rate pair run for 4*period+1 next() calls / one Timeline with 1-3 devices ticked over >= 2 periods / "
-                       "one virtual-clock script (25-110 wake-ups) / one MIDI message sequence; distinct by content; "
+                       "one virtual-clock script (25-110 wake-ups) / one MIDI message sequence / one history of messages and user-level calls on a MidiInputDevice wired to a Timeline; distinct by content; "
                        "non-trivial = at least one tick is due.  Compared: values yielded, device.tick() calls per Timeline.tick() in call order, "
                        "cumulative clock_target.tick() count after every wake-up, calls on the clock target per MIDI message.")
 
